@@ -368,7 +368,7 @@ class View:
     def reaching_defs(self):
         """IN[n] : dict var -> set of defining node ids (entry id for params)"""
         cfg = self.cfg
-        params = func_params(cfg.fn)
+        params = cfg.params if hasattr(cfg, "params") else func_params(cfg.fn)
         IN = {i: {} for i in self.reach}
         OUT = {i: {} for i in self.reach}
         order = [n.id for n in cfg.nodes if n.id in self.reach]
